@@ -39,7 +39,7 @@ def run_history(ctx, prop, seed, clients, nops, shape, binary='h', tag='c'):
             fails.append(Failure(prop, 'tie', 'conc-driver', (o2 + e2)[-400:], replay=rep))
     # a hang in which a READDIRPLUS transaction is stuck holding its directory is the wait-for cycle of the
     # lock-order violation its own trace shows: report it as that
-    hung = [f for f in fails if f.kind == 'panic' and 'hang' in f.detail]
+    hung = [f for f in fails if f.kind == 'panic' and ('hang' in f.detail or f.detail.strip() == 'hung')]
     rdp = [f for f in fails if f.kind == 'trace' and f.where == 'readdirplus']
     if hung and rdp:
         keep = [f for f in fails if f not in hung and not (f.kind == 'trace' and 'lock-leak' in f.detail)]
